@@ -54,6 +54,20 @@ type SUT struct {
 	Cat    *catalog.Catalog
 	Eng    *executors.ExecutionEngine
 	closed bool
+	// Dead: the engine panicked under this instance; latches may be left locked, so nothing more is run on it
+	Dead bool
+}
+
+var errDead = fmt.Errorf("engine instance is dead after a panic")
+
+func (s *SUT) catch(pi **PanicInfo) {
+	if r := recover(); r != nil {
+		s.Dead = true
+		func() {
+			defer catchPanic(pi)
+			panic(r)
+		}()
+	}
 }
 
 type PanicInfo struct {
@@ -110,7 +124,7 @@ func OpenSUT(path string, frames int) (s *SUT, pi *PanicInfo) {
 
 // Crash stops the engine without flushing anything: background flags off, files closed.
 func (s *SUT) Crash() (pi *PanicInfo) {
-	if s == nil || s.closed {
+	if s == nil || s.closed || s.Dead {
 		return nil
 	}
 	s.closed = true
@@ -126,6 +140,9 @@ func (s *SUT) Crash() (pi *PanicInfo) {
 func (s *SUT) Shutdown() (pi *PanicInfo) {
 	if s == nil || s.closed {
 		return nil
+	}
+	if s.Dead {
+		return &PanicInfo{Val: "dead instance", Site: "dead"}
 	}
 	s.closed = true
 	defer catchPanic(&pi)
@@ -150,7 +167,10 @@ type STxn struct {
 }
 
 func (s *SUT) Begin() (t *STxn, pi *PanicInfo) {
-	defer catchPanic(&pi)
+	if s.Dead {
+		return nil, &PanicInfo{Val: "dead instance", Site: "dead"}
+	}
+	defer s.catch(&pi)
 	txn := s.Shi.GetTransactionManager().Begin(nil)
 	return &STxn{s: s, Txn: txn}, nil
 }
@@ -185,6 +205,9 @@ func shapeOf(p plans.Plan) string {
 	name := fmt.Sprintf("%T", p)
 	name = strings.TrimPrefix(name, "*plans.")
 	name = strings.TrimSuffix(name, "PlanNode")
+	if rs, ok := p.(*plans.RangeScanWithIndexPlanNode); ok {
+		name += fmt.Sprintf("[col%d]", rs.GetColIdx())
+	}
 	ch := p.GetChildren()
 	if len(ch) == 0 {
 		return name
@@ -201,8 +224,12 @@ func shapeOf(p plans.Plan) string {
 // Exec runs one statement inside the transaction, the way SamehadaDB.ExecuteSQLRetValues does
 // (parser -> RewriteQueryInfo -> SimplePlanner -> ExecutionEngine), without committing.
 func (t *STxn) Exec(sql string) (res ExecResult) {
-	defer catchPanic(&res.Panic)
 	s := t.s
+	if s.Dead {
+		res.Err = errDead
+		return
+	}
+	defer s.catch(&res.Panic)
 	qi, err := parser.ProcessSQLStr(&sql)
 	if err != nil {
 		res.Err = err
@@ -241,14 +268,20 @@ func (t *STxn) Exec(sql string) (res ExecResult) {
 }
 
 func (t *STxn) Commit() (pi *PanicInfo) {
-	defer catchPanic(&pi)
+	if t.s.Dead {
+		return &PanicInfo{Val: "dead instance", Site: "dead"}
+	}
+	defer t.s.catch(&pi)
 	t.Done = true
 	t.s.Shi.GetTransactionManager().Commit(t.s.Cat, t.Txn)
 	return nil
 }
 
 func (t *STxn) Abort() (pi *PanicInfo) {
-	defer catchPanic(&pi)
+	if t.s.Dead {
+		return &PanicInfo{Val: "dead instance", Site: "dead"}
+	}
+	defer t.s.catch(&pi)
 	t.Done = true
 	t.s.Shi.GetTransactionManager().Abort(t.s.Cat, t.Txn)
 	return nil
@@ -256,7 +289,11 @@ func (t *STxn) Abort() (pi *PanicInfo) {
 
 // AutoSQL runs a statement through the public ExecuteSQL entry point (request manager etc).
 func (s *SUT) AutoSQL(sql string) (res ExecResult) {
-	defer catchPanic(&res.Panic)
+	if s.Dead {
+		res.Err = errDead
+		return
+	}
+	defer s.catch(&res.Panic)
 	var err error
 	var rows [][]interface{}
 	if simrt.Controlled() {
@@ -278,6 +315,7 @@ func (s *SUT) AutoSQL(sql string) (res ExecResult) {
 			err, rows = r.err, r.rows
 		case gp := <-simrt.GoPanicCh:
 			res.Panic = &PanicInfo{Val: gp.Val, Stack: gp.Stack, Site: panicSite(gp.Stack)}
+			s.Dead = true
 			return
 		}
 	}
@@ -294,7 +332,11 @@ func (s *SUT) AutoSQL(sql string) (res ExecResult) {
 // ScanHeap reads a table by a full heap scan (sequential-scan executor without predicate),
 // inside its own transaction which is committed afterwards.
 func (s *SUT) ScanHeap(table string) (rows [][]any, tids []tuple.Tuple, res ExecResult) {
-	defer catchPanic(&res.Panic)
+	if s.Dead {
+		res.Err = errDead
+		return
+	}
+	defer s.catch(&res.Panic)
 	tm := s.Cat.GetTableByName(table)
 	if tm == nil {
 		res.Err = fmt.Errorf("table %s not in catalog", table)
@@ -316,14 +358,20 @@ func (s *SUT) ScanHeap(table string) (rows [][]any, tids []tuple.Tuple, res Exec
 
 // RefreshStats runs one statistics pass (what the 10 s background thread does).
 func (s *SUT) RefreshStats() (pi *PanicInfo) {
-	defer catchPanic(&pi)
+	if s.Dead {
+		return &PanicInfo{Val: "dead instance", Site: "dead"}
+	}
+	defer s.catch(&pi)
 	u := concurrency.NewStatisticsUpdater(s.Shi.GetTransactionManager(), s.Cat)
 	u.UpdateAllTablesStatistics()
 	return nil
 }
 
 func (s *SUT) Checkpoint() (pi *PanicInfo) {
-	defer catchPanic(&pi)
+	if s.Dead {
+		return &PanicInfo{Val: "dead instance", Site: "dead"}
+	}
+	defer s.catch(&pi)
 	s.DB.ForceCheckpointingForTestcase()
 	return nil
 }
@@ -367,4 +415,33 @@ func pinDiff(a, b map[int32]int32) string {
 func removeDBFiles(path string) {
 	os.Remove(path + ".db")
 	os.Remove(path + ".log")
+}
+
+var rePlanCol = regexp.MustCompile(`\[col\d+\]`)
+
+// planKind strips the index column from a plan shape (for statistics).
+func planKind(shape string) string { return rePlanCol.ReplaceAllString(shape, "") }
+
+// TxnSQL runs one statement in its own explicit transaction (begin / exec / commit-or-abort) and
+// reports the plan that was used.
+func (s *SUT) TxnSQL(sql string) (res ExecResult) {
+	t, pi := s.Begin()
+	if pi != nil {
+		res.Panic = pi
+		return
+	}
+	res = t.Exec(sql)
+	if res.Panic != nil {
+		return
+	}
+	if res.Aborted || res.Err != nil {
+		if pi := t.Abort(); pi != nil {
+			res.Panic = pi
+		}
+		return
+	}
+	if pi := t.Commit(); pi != nil {
+		res.Panic = pi
+	}
+	return
 }
